@@ -23,6 +23,10 @@ CHECKS = {}  # filled from sim/props/*.py that exist and are listed in ENABLED
 ENABLED = json.load(open(os.path.join(HERE, "bin", "enabled.json")))
 
 TEXT = {
+    "C16": ("exploration",
+            "Seeded exploration with real processes (only a process shows an abort, stack overflow or signal): lane B takes ~1840 real source files, damages their stored bytes with 0-3 token-level mutations (delete, duplicate, swap, truncate incl. mid-token, delimiter imbalance, non-ASCII insertion, invalid UTF-8), draws a swarm configuration with a usable page, delivers the text as root file, as out-of-line module or on stdin, optionally behind a nesting amplifier of up to 32 levels, and monitors exit status / signal / stderr / ICE files; lane C injects a panic at each of the seven catch_unwind containment boundaries (1st..3rd / every hit) and checks that it is contained, that nothing is written, and that the rest of the input is formatted as without the fault. Violations are keyed by panic site.",
+            "Sampling of an input x configuration space; timeouts are inconclusive, never violations; the dev profile is what runs.",
+            "deterministic simulation: stored-byte corruption and cooperative panic injection, process-level abnormal-termination monitor", "s4 C16"),
     "C19": ("exploration",
             "Seeded exploration: the driver draws an edit script over a small tree and renders the unified diff itself (0-3 context lines, several hunks, first/last-line additions, pure deletions, new/deleted/renamed files, omitted counts, git headers, section text with `+N` look-alikes, timestamps, missing final newline), so the post-image ranges are known by construction; the real rustfmt-format-diff reads it through a stdin pipe delivered in two different chunkings (short reads, EINTR) and spawns a recording stub whose status / fatal signal / absence is scripted. Oracles: recorded file arguments and --file-lines ranges equal the constructed ones, no child for an empty result, exit status follows the child, chunking never matters.",
             "Trusts the driver's own diff rendering as ground truth; paths have at least N components and no spaces.",
